@@ -10,6 +10,9 @@
  *   wrong-mode-file / wrong-mode-pipe
  *                  a healthy regular file / pipe end opened for the other direction: the first
  *                  read()/write() fails with EBADF while further operations are already queued
+ *   path-vanishes  dispatch_io_create_with_path on a file that is removed before the first operation
+ *                  (the descriptor is opened lazily: open() fails with ENOENT)
+ * Channels are used directly or through a second channel made with dispatch_io_create_with_io.
  * In the wrong-mode-file class (and now and then in the others) a "bystander" channel on a healthy
  * file of the same device carries reads and writes at the same time: they must not notice.
  * through the convenience API (dispatch_read / dispatch_write, block and _f forms) and through
@@ -35,8 +38,8 @@
 #include <errno.h>
 #include <sched.h>
 
-enum { CL_INVALID_FD, CL_RANDOM_ON_PIPE, CL_DIRECTORY, CL_MISSING_PATH, CL_WRONG_MODE_FILE, CL_WRONG_MODE_PIPE, CL_N };
-static const char *const cl_names[] = { "invalid-fd", "random-on-pipe", "directory", "missing-path", "wrong-mode-file", "wrong-mode-pipe" };
+enum { CL_INVALID_FD, CL_RANDOM_ON_PIPE, CL_DIRECTORY, CL_MISSING_PATH, CL_WRONG_MODE_FILE, CL_WRONG_MODE_PIPE, CL_PATH_VANISHES, CL_N };
+static const char *const cl_names[] = { "invalid-fd", "random-on-pipe", "directory", "missing-path", "wrong-mode-file", "wrong-mode-pipe", "path-vanishes" };
 #define BY_SZ (256u * 1024u)
 #define BY_MAX 16
 enum { K_READ, K_WRITE };
@@ -71,6 +74,7 @@ typedef struct btrial {
 	dispatch_queue_t hq, cq, dq;        /* handler queue, cleanup queue, data destructor queue */
 	dispatch_io_t io;
 	_Atomic uint32_t cleanups; int cleanup_err; uint64_t cleanup_start;
+	_Atomic uint32_t base_cleanups; int derived;
 	bop_t ops[8];
 	_Atomic uint64_t events, expected;   /* handler dones + cleanup */
 	_Atomic uint64_t destroyed, destroy_expected;
@@ -273,7 +277,7 @@ static void run_trial(int idx)
 	vf_perturb_draw(r, &t->prof);
 	t->cls = (int)vf_rnd_n(r, CL_N);
 	/* the convenience API takes a descriptor: only descriptor classes; a path only makes channels */
-	t->via = (t->cls == CL_RANDOM_ON_PIPE || t->cls == CL_MISSING_PATH) ? VIA_CHANNEL : (int)vf_rnd_n(r, 2);
+	t->via = (t->cls == CL_RANDOM_ON_PIPE || t->cls == CL_MISSING_PATH || t->cls == CL_PATH_VANISHES) ? VIA_CHANNEL : (int)vf_rnd_n(r, 2);
 	t->only_kind = -1; t->by_fd = -1;
 	t->hq_kind = (int)vf_rnd_n(r, 3);
 	t->hq = t->hq_kind == 0 ? dispatch_queue_create("vf.iobad.handlers", DISPATCH_QUEUE_SERIAL)
@@ -295,6 +299,11 @@ static void run_trial(int idx)
 		t->only_kind = (int)vf_rnd_n(r, 2);
 		fd = open(path, t->only_kind == K_WRITE ? O_RDONLY : O_WRONLY); if (fd < 0) vf_fail("open %s", path);
 		break; }
+	case CL_PATH_VANISHES: {
+		snprintf(path, sizeof(path), "/tmp/vf_iobadv_%d_XXXXXX", (int)getpid());
+		int tfd = mkstemp(path); if (tfd < 0) vf_fail("mkstemp");
+		char fill[4096]; memset(fill, 0x33, sizeof(fill)); if (write(tfd, fill, sizeof(fill)) < 0) vf_fail("write"); close(tfd);
+		break; }
 	default: { int p[2]; if (pipe(p)) vf_fail("pipe"); t->only_kind = (int)vf_rnd_n(r, 2); fd = t->only_kind == K_WRITE ? p[0] : p[1]; fd2 = t->only_kind == K_WRITE ? p[1] : p[0]; break; }
 	}
 	int bystander = t->cls == CL_WRONG_MODE_FILE || vf_rnd_n(r, 4) == 0;
@@ -305,18 +314,35 @@ static void run_trial(int idx)
 		dispatch_io_type_t ty = t->cls == CL_RANDOM_ON_PIPE ? DISPATCH_IO_RANDOM : (dispatch_io_type_t)vf_rnd_n(r, 2);
 		int ff = (int)vf_rnd_n(r, 2);
 		atomic_fetch_add(&t->expected, 1);   /* the cleanup handler */
-		if (t->cls == CL_MISSING_PATH) {
+		if (t->cls == CL_MISSING_PATH || t->cls == CL_PATH_VANISHES) {
 			int oflag = vf_rnd_n(r, 2) ? O_RDONLY : O_RDWR;
 			t->io = ff ? dispatch_io_create_with_path_f(ty, path, oflag, 0, t->cq, t, h_cleanup) : dispatch_io_create_with_path(ty, path, oflag, 0, t->cq, ^(int e) { h_cleanup(t, e); });
 		} else {
 			t->io = ff ? dispatch_io_create_f(ty, fd, t->cq, t, h_cleanup) : dispatch_io_create(ty, fd, t->cq, ^(int e) { h_cleanup(t, e); });
 		}
 		if (!t->io) vf_fail("dispatch_io_create* returned NULL for class %s", cl_names[t->cls]);
+		if (t->cls == CL_PATH_VANISHES) {
+			/* the creation (lstat) has been processed once a barrier has run; the file goes away before anything opens it */
+			dispatch_semaphore_t sem = dispatch_semaphore_create(0);
+			dispatch_io_barrier(t->io, ^{ dispatch_semaphore_signal(sem); });
+			dispatch_semaphore_wait(sem, DISPATCH_TIME_FOREVER); dispatch_release(sem);
+			unlink(path);
+		}
+		if (vf_rnd_n(r, 3) == 0) {
+			/* use the channel through a second one made from it */
+			dispatch_io_t base = t->io;
+			atomic_fetch_add(&t->expected, 1);
+			t->derived = 1;
+			t->io = dispatch_io_create_with_io(ty, base, t->cq, ^(int e) { h_cleanup(t, e); });
+			if (!t->io) vf_fail("dispatch_io_create_with_io returned NULL");
+			/* the base channel's cleanup handler was installed above as h_cleanup too: tell them apart by order of creation */
+			dispatch_release(base);
+		}
 		if (vf_rnd_n(r, 3) == 0) dispatch_io_set_low_water(t->io, vf_rnd_range(r, 1, 8192));
 		if (vf_rnd_n(r, 3) == 0) dispatch_io_set_high_water(t->io, vf_rnd_range(r, 1, 65536));
 	}
 	if (late_ops == 1) { struct timespec ts = { 0, (long)vf_rnd_range(r, 1000, 300000) }; nanosleep(&ts, NULL); }
-	else if (late_ops == 2 && t->via == VIA_CHANNEL && t->cls <= CL_DIRECTORY) {
+	else if (late_ops == 2 && t->via == VIA_CHANNEL && t->cls <= CL_DIRECTORY && !t->derived) {
 		/* a failed creation posts the cleanup handler at once: wait for it, then use the failed channel */
 		while (!atomic_load(&t->cleanups)) sched_yield();
 	}
@@ -377,7 +403,7 @@ static void run_trial(int idx)
 		if (t->via == VIA_CHANNEL && atomic_load(&t->cleanups) && op->last_end > t->cleanup_start) vf_count("handlers_after_cleanup_of_failed_channel", 1);
 	}
 	if (t->via == VIA_CHANNEL) {
-		if (atomic_load(&t->cleanups) != 1) { snprintf(k, sizeof(k), "C14:cleanup:count:%s", cl_names[t->cls]); VIOL(k, "cleanup handler of a channel on %s ran %u times", cl_names[t->cls], atomic_load(&t->cleanups)); }
+		if (atomic_load(&t->cleanups) != 1u + (unsigned)t->derived) { snprintf(k, sizeof(k), "C14:cleanup:count:%s", cl_names[t->cls]); VIOL(k, "cleanup handlers of %d channel(s) on %s ran %u times in total", 1 + t->derived, cl_names[t->cls], atomic_load(&t->cleanups)); }
 		else if (t->cleanup_err) vf_count("cleanup_handlers_with_creation_error", 1);
 	}
 	if (bystander) by_check(t);
@@ -393,6 +419,7 @@ static void run_trial(int idx)
 	if (fd >= 0 && t->cls != CL_INVALID_FD) close(fd);
 	if (fd2 >= 0) close(fd2);
 	if (t->cls == CL_WRONG_MODE_FILE) unlink(path);
+	if (t->derived) vf_count("unusable_descriptor_trials_through_create_with_io", 1);
 	if (bystander) { close(t->by_fd); unlink(t->by_path); for (int i = 0; i < t->by_n; i++) free(t->by[i].buf); free(t->by_ref); }
 	for (int i = 0; i < t->nops; i++) free(t->ops[i].ref);
 	if (t->hq_kind != 2) dispatch_release(t->hq);
